@@ -9,7 +9,7 @@
    is the input slice between from and to (string literals: after the \n
    decoding, finding K4).  The stream invariants over whole inputs are NOT
    proved; the check evaluates every clause on the real token streams. *)
-Require Import Calc.Base Calc.Lexer.
+Require Import Calc.Base Calc.Lexer Calc.LexerProofs Calc.LexerSpans.
 Open Scope Z_scope.
 
 Theorem C14_decode_ascii : forall b r, 0 <= b < 128 -> decode_rune (b :: r) = (b, 1).
@@ -65,3 +65,24 @@ Proof.
   cbn [fst] in Hr. rewrite Hr, He, Hm in H. inversion H; subst; clear H. cbn. repeat split; reflexivity.
 Qed.
 Print Assumptions C14_emitted_text_is_slice.
+
+(* ---- the whole stream, every input ----
+   Every token of a scan lies inside the input (0 <= from <= to <= length), the
+   tokens follow each other in source order and never overlap (each starts at
+   or after the end of the one before); the only exceptions are the two
+   synthetic tokens at the end, end-of-line and end-of-file, which carry the
+   empty span (0, 0).  Nothing is claimed about an entry that carries a lexer
+   error: the scan stops there. *)
+Theorem C14_tokens_in_source_order : forall input, spans_ok (slen input) 0 (tokens_of input).
+Proof. exact tokens_in_source_order. Qed.
+Print Assumptions C14_tokens_in_source_order.
+
+(* one call of Next from any well-formed lexer *)
+Theorem C14_next_token_span : forall fuel l st l',
+  cursor_ok l -> next_loop fuel l st = NTrue l' -> l_err l' = None ->
+  cursor_ok l' /\ l_len l' = l_len l /\
+  ((synthetic (l_token l') /\ l_from l <= l_from l') \/
+   (l_from l <= t_from (l_token l') /\ t_from (l_token l') <= t_to (l_token l') /\
+    t_to (l_token l') = l_from l' /\ l_from l' <= l_len l)).
+Proof. exact next_loop_span. Qed.
+Print Assumptions C14_next_token_span.
